@@ -4,7 +4,11 @@ import sys
 import traceback
 
 from conductor.errors import ConductorError, UnsupportedPlatform
-from conductor.errors.signal import register_signal_handlers, raise_pending_abort
+from conductor.errors.signal import (
+    register_signal_handlers,
+    raise_pending_abort,
+    restore_default_signal_handlers,
+)
 
 
 @contextlib.contextmanager
@@ -43,10 +47,16 @@ def cli_command(main):
 
     def command_main(args):
         try:
-            check_platform_compatibility()
-            register_signal_handlers()
-            main(args)
-            raise_pending_abort()
+            try:
+                check_platform_compatibility()
+                register_signal_handlers()
+                main(args)
+                raise_pending_abort()
+            finally:
+                # The command is over and has cleaned up after itself. A signal
+                # that arrives while the outcome is being reported (or while
+                # the interpreter shuts down) just ends the process.
+                restore_default_signal_handlers()
         except ConductorError as ex:
             if args.debug:
                 print(traceback.format_exc(), file=sys.stderr)
